@@ -21,13 +21,18 @@ A node is a dict
     is88       bool               level == 88 (set by node())
 
 Nothing here looks at the code under test.  The clean defaults avoid every known parser trap:
-names come from a pool without reserved-word prefixes, code stays inside columns 8-71, every
+names come from a pool without reserved-word prefixes (reserved words inside and at the end of a name are in it), code stays inside columns 8-71, every
 entry ends in a period followed by a newline.
 """
 
 STEMS = ["CUST", "ACCT", "ADDR", "NAME", "ZIP", "PHONE", "AMT", "BAL", "DATE", "YEAR", "MONTH", "DAY", "CODE",
          "TYPE", "FLAG", "ITEM", "QTY", "PRICE", "TOTAL", "REC", "TEXT", "LINE", "NUM", "STAT", "AREA",
-         "WS", "TBL", "ENTRY", "ROW", "FLD", "A", "B1", "X9", "Q", "N-1", "KEY-FLD", "LAST", "1ST"]
+         "WS", "TBL", "ENTRY", "ROW", "FLD", "A", "B1", "X9", "Q", "N-1", "KEY-FLD", "LAST", "1ST",
+         # a USAGE word, PIC / PICTURE or USAGE / IS in the MIDDLE or at the END of a name (a number or another stem follows):
+         # the decoder's second parse of the entry text (estruct.clause_pattern) must not take them for clauses.  Names that
+         # START with such a word stay in KEYWORD_PREFIX_NAMES (the FIRST parse cuts them: finding C07-K3)
+         "EMP-COMPANY", "WS-COMP", "TOT-BINARY", "USE-DISPLAY", "ELEM-PIC", "N-PACKED-DECIMAL", "OLD-COMPUTATIONAL", "X-PICTURE",
+         "NON-USAGE", "THIS-IS", "Q-COMP-3"]
 
 # reserved words that the clause pattern matches at the start of a longer name
 KEYWORD_PREFIX_NAMES = ["COMPANY", "COMPUTATIONALLY", "BINARYX", "DISPLAYED", "SYNC-POINT", "SYNCHRONIZED-AT",
